@@ -28,16 +28,14 @@ def orBytes (mod : Nat) : List Nat → Nat → List Byte → Nat × List Byte
     let (c, r) := getc rest
     orBytes mod ss (acc ||| (cval mod c * 2 ^ s % mod)) r
 
-def shifts (big : Bool) (n : Nat) : List Nat :=
-  let l := (List.range n).map (· * 8)
-  if big then l.reverse else l
-
 /-- `get_int16()` / `get_int32()`: the result type is `uint32_t` (so `get_int16` at EOF is 0xffffffff) -/
-def getInt16 (big : Bool) (rest : List Byte) : Nat × List Byte := orBytes 4294967296 (shifts big 2) 0 rest
-def getInt32 (big : Bool) (rest : List Byte) : Nat × List Byte := orBytes 4294967296 (shifts big 4) 0 rest
+def getInt16 (big : Bool) (rest : List Byte) : Nat × List Byte :=
+  orBytes 4294967296 (if big then [8, 0] else [0, 8]) 0 rest
+def getInt32 (big : Bool) (rest : List Byte) : Nat × List Byte :=
+  orBytes 4294967296 (if big then [24, 16, 8, 0] else [0, 8, 16, 24]) 0 rest
 /-- `get_int64()`: `get_int64_be` accumulates in a `uint32_t i` (the upper half is lost), `get_int64_le` in 64 bits -/
 def getInt64 (big : Bool) (rest : List Byte) : Nat × List Byte :=
-  let (v, r) := orBytes 18446744073709551616 (shifts big 8) 0 rest
+  let (v, r) := orBytes 18446744073709551616 (if big then [56, 48, 40, 32, 24, 16, 8, 0] else [0, 8, 16, 24, 32, 40, 48, 56]) 0 rest
   (if big then v % 4294967296 else v, r)
 
 /-- `uint32_t` → `int` -/
